@@ -12,6 +12,11 @@ subtraction), `1 ≤ f`, and `b < 1 ∨ 0 < dl` — at `b = 1 ∧ dl = 0` the co
 weight; in `ℝ` Lean's `x / 0 = 0`), so that corner is outside the real-number reading and is exercised in floats
 by the correspondence run only.
 
+Phase 2 (section "the hypotheses are reachable-exactly" below) discharges `n ≤ N`, `0 < avgdl` and `b < 1 ∨ 0 < dl` for
+the statistics of a real search: `real_hit_score_pos_bounded` needs only the similarity's parameters, the boost and the
+decidable predicate `RealHitOk` (per-segment plugin statistics, `1 ≤ f ≤ len ≤ 0x7f800000`), which the driver evaluates on
+every term node of every hit of the `dhit` stream.
+
 Rounding is not modelled: strictness is claimed over `ℝ`; in float64 the laws hold non-strictly (saturation at huge
 `f`), which the correspondence run measures (`lawpair` lines). -/
 namespace Bluge.C17
